@@ -23,6 +23,7 @@ package httputil
 //@ func newRequest
 //@   requires opts != nil && opts.url != nil
 //@   ensures result1 == nil ==> result0 != nil && result0.URL != nil && sendable(result0)
+//@   ensures rewinds_only_as_the_library_does: result1 == nil ==> result0.GetBody == nil || libGetBody(result0.GetBody)
 
 //@ func fallbackToHTTP
 //@   requires client != nil && sendable(req)
